@@ -4,9 +4,9 @@
 set -u
 REPO=${VERIF_REPO:-/repo}
 if ! git -C "$REPO" diff --quiet; then echo "with_patch: $REPO is dirty, refusing" >&2; exit 3; fi
-restore() { git -C "$REPO" checkout -- . ; git -C "$REPO" clean -fdq -e rewriter/test/out -e rewriter/test/out_tmp >/dev/null 2>&1; }
+restore() { git -C "$REPO" reset -q --hard HEAD; git -C "$REPO" clean -fdq -e rewriter/test/out -e rewriter/test/out_tmp >/dev/null 2>&1; }
 trap restore EXIT INT TERM
-if [ "$1" = "-e" ]; then sed -i "$2" "$REPO/$3"; shift 3; else git -C "$REPO" apply "$(realpath "$1")" || exit 3; shift; fi
+if [ "$1" = "-e" ]; then sed -i "$2" "$REPO/$3"; shift 3; else git -C "$REPO" apply "$(realpath "$1")" 2>/dev/null || git -C "$REPO" apply --3way "$(realpath "$1")" || exit 3; shift; fi
 [ "$1" = "--" ] && shift
 git -C "$REPO" diff --stat | tail -1
 timeout ${PATCH_TIMEOUT:-900} "$@"
